@@ -18,14 +18,14 @@ from mc import kernel
 ID = "C14"
 LEVEL = "exploration"
 TECHNIQUE = ("exhaustive pairs/triples over the finite kind universe; bounded exhaustive enumeration of programs x all "
-             "statement-list permutations x both phase orders (x hash seeds in subprocesses in the thorough tier)")
+             "statement-list permutations x both phase orders x hash seeds (subprocesses)")
 RULE = ("(a) all pairs and triples over 9 kinds; (b) programs = sets of <= k statements from a menu of (lhs, rhs) pairs, "
         "each evaluated under all permutations of each phase list and both phase orders; evaluations = inference runs + "
         "unify calls; non-trivial = programs with >= 2 distinct presentations on which inference returns a table; "
         "distinct_outcomes = distinct outcomes (tables / exception types)")
 ASSUMPTIONS = ["unify(Boolean, Boolean) raising is taken as 'undefined' (by design: arithmetic with flags)",
-               "hash-seed independence is explored for seeds {0,1,2,3} only (thorough); no hash-ordered container "
-               "is iterated by data.py"]
+               "hash-seed independence is explored for seeds {0,1,2} (quick) / {0..6} (thorough) on every 7th program, "
+               "first presentation"]
 LEVEL_TEXT = ("The kind universe is finite and covered completely; for inference every presentation (all permutations, "
               "both phase orders) of every program in the bounded space is run on the real SymbolKindFinder and outcomes "
               "are compared pairwise against the first presentation.")
@@ -272,7 +272,7 @@ def bounds(tier):
             "k=5": "all 5-subsets of the 4-rhs core menu (thorough only)",
             "presentations": "all permutations per phase x both phase orders; the first presentation also with every phase "
             "given as a one-shot iterator",
-            "hash_seeds": [0] if tier == "quick" else [0, 1, 2, 3]}
+            "hash_seeds": [0, 1, 2] if tier == "quick" else [0, 1, 2, 3, 4, 5, 6]}
 
 
 CORE_RHS = ["1", "1j", "y", "x + z", "y * z", "z > 1", "<builtin>array(3)", "<p>g", "<func>f(<t>, y)"]
@@ -297,8 +297,7 @@ def shards(tier, seed):
     m = 64 if tier == "quick" else 256
     out = [{"part": "unify"}]
     out += [{"part": "infer", "tier": tier, "mod": m, "rem": r} for r in range(m)]
-    if tier == "thorough":
-        out += [{"part": "seeds", "tier": tier, "seed": s} for s in (1, 2, 3)]
+    out += [{"part": "seeds", "tier": tier, "seed": s} for s in ((1, 2) if tier == "quick" else (1, 2, 3, 4, 5, 6))]
     return out
 
 
